@@ -1,3 +1,11 @@
 fn main() {
     built::write_built_file().expect("Failed to acquire build-time information");
+    amiquip_verif_check_cfg();
+}
+
+// verification hooks (see src/verif.rs) are compiled only with `--cfg amiquip_verif`;
+// tell rustc the cfg name is expected so it does not lint about it.
+#[allow(dead_code)]
+fn amiquip_verif_check_cfg() {
+    println!("cargo:rustc-check-cfg=cfg(amiquip_verif)");
 }
